@@ -284,9 +284,9 @@ pub fn plant(r: &mut Rng, env: &Env) -> (String, &'static str) {
     let qubits = env.qubits();
     let q0 = qubits[0].clone();
     let (qn, qs) = env.qregs[0].clone();
-    let kind = r.below(34);
+    let kind = r.below(40);
     // control-overlap plants carry extra weight (several shapes share one error variant)
-    let kind = if kind >= 28 { 20 } else { kind };
+    let kind = if (28..34).contains(&kind) { 20 } else { kind };
     match kind {
         20 => {
             // control inside a whole-register target (multi-bit target)
@@ -336,6 +336,28 @@ pub fn plant(r: &mut Rng, env: &Env) -> (String, &'static str) {
                 (format!("measure {q0} -> {cn}[{}];", cs + r.below(2)), "IdxOutOfRange")
             } else {
                 (format!("measure {q0} -> nosuchc[0];"), "NoCReg")
+            }
+        }
+        34 | 35 => {
+            // a cycle of gate definitions that the applied gate leads into but is not part of
+            let n = 2 + r.below(3);
+            let mut src = String::from("gate cyin a { cy0 a; }\n");
+            for i in 0..n {
+                src += &format!("gate cy{i} a {{ h a; cy{} a; }}\n", (i + 1) % n);
+            }
+            (src + &format!("cyin {q0};"), "MacroError")
+        }
+        36 | 37 => {
+            // an index far beyond the register: 64 (the word size) or more, also when idx % 64 is a valid index
+            let idx = 64 * (1 + r.below(3)) + r.below(qs + 1);
+            (format!("x {qn}[{idx}];"), "IdxOutOfRange")
+        }
+        38 | 39 => {
+            if let Some((cn, cs)) = env.cregs.first() {
+                let idx = 64 * (1 + r.below(2)) + r.below(*cs);
+                (format!("measure {q0} -> {cn}[{idx}];"), "IdxOutOfRange")
+            } else {
+                (format!("reset {qn}[{}];", 64 + r.below(qs)), "IdxOutOfRange")
             }
         }
         0 => ("h nosuch[0];".into(), "NoQReg"),
